@@ -25,9 +25,16 @@ def hparse(api: ParseAPI, pub_prv: str, key_type: str, s: str) -> Any:
     prefix = getattr(api, attr_name, None)
     if data is None or prefix is None or not data.startswith(prefix):
         return None
+    # version(4) depth(1) fingerprint(4) child(4) chain code(32) key(33)
+    if len(data) != len(prefix) + 74:
+        return None
     parse_method_name = "%s_deserialize" % key_type
     parse_method = getattr(api._network.keys, parse_method_name, lambda *args: None)
-    return parse_method(data)
+    try:
+        return parse_method(data)
+    except ValueError:
+        # exponent outside 1..order-1, or not the encoding of a curve point
+        return None
 
 
 class ParseAPI(object):
